@@ -97,3 +97,14 @@ Fixpoint names_distinct (l : list string) : bool :=
   | [] => true
   | a :: r => negb (existsb (String.eqb a) r) && names_distinct r
   end.
+
+(* relation.go checkColumnList: the column list of an INSERT / the SET list of an UPDATE may only
+   name columns of the table (ErrFieldNotFound), each at most once (ErrDuplicateColumn = EOther) *)
+Fixpoint cols_err (names : list string) (cols seen : list string) : option err :=
+  match cols with
+  | [] => None
+  | c :: r =>
+      if negb (existsb (String.eqb c) names) then Some EFieldNotFound
+      else if existsb (String.eqb c) seen then Some EOther
+      else cols_err names r (c :: seen)
+  end.
